@@ -1130,6 +1130,17 @@ func (ev *Env) call(e *Expr) Val {
 			efail("unknown type %s", e.Args[1].S)
 		}
 		return boolVal(eq(app("itag", x.T), strconv.Itoa(ev.c.ifaceTag(t))))
+	case "implements":
+		// implements(iface, "pkg.Interface"): the (non-nil) dynamic type implements it
+		x := arg(0)
+		t := ev.v.lookupType(ev.pkg, e.Args[1].S)
+		if t == nil {
+			efail("unknown type %s", e.Args[1].S)
+		}
+		if _, ok := t.Underlying().(*types.Interface); !ok {
+			efail("%s is not an interface", e.Args[1].S)
+		}
+		return boolVal(and(not(eq(x.T, "inil")), app(ev.v.implPred(ev.c, t), app("itag", x.T))))
 	case "unbox":
 		// unbox(iface, "pkg.Type") : the value held by the interface
 		x := arg(0)
